@@ -390,7 +390,8 @@ func (t *Tree) internalDelete(subpath []string, condition func(interface{}) bool
 			// An empty node holds no leaf to delete.
 			return false, nil
 		default:
-			if condition(t.leafBranch) {
+			// A leaf matches only if no path elements remain beyond it, as in Query.
+			if len(subpath) == 0 && condition(t.leafBranch) {
 				// The second parameter is an empty path that will be filled as recursion
 				// unwinds for this leaf that will be deleted in its parent.
 				f(t.leafBranch)
